@@ -156,10 +156,10 @@ pub fn run(ctx: &Ctx) -> (&'static str, &'static str) {
     ctx.degraded("toy-curve addition chains");
     // 2. the concrete impls on the full curve groups
     let mut rng = ctx.rng("c17.points");
-    let p1 = g1_points(&mut rng, ctx.tier.pick(2, 6), ctx.tier.pick(2, 4));
+    let p1 = g1_points(&mut rng, ctx.tier.pick(2, 24), ctx.tier.pick(2, 4));
     let l1 = lambdas_q1(&mut rng, 1);
     real_clear::<RG1>(ctx, p1, &l1[..ctx.tier.pick(2, 4)], &params().h_eff_g1, |p: &mut G1| p.clear_h());
-    let p2 = g2_points(&mut rng, ctx.tier.pick(2, 4), ctx.tier.pick(2, 5));
+    let p2 = g2_points(&mut rng, ctx.tier.pick(2, 12), ctx.tier.pick(2, 5));
     let l2 = lambdas_q2(&mut rng, 1);
     real_clear::<RG2>(ctx, p2, &l2[..ctx.tier.pick(2, 4)], &params().h_eff_g2, |p: &mut G2| p.clear_h());
     ctx.assume("the exponent-group run decides the multiplier of the generic chains for every group satisfying C01; the concrete G1/G2 impls are additionally compared with big-integer [h_eff]P on full-curve points");
